@@ -131,3 +131,65 @@ func VerifPoolSegments() {
 	}
 	zzverif.Cover("pool_segments_done")
 }
+
+var vErrSeg = errSeg("segment refused")
+
+type errSeg string
+
+func (e errSeg) Error() string { return string(e) }
+
+type vFailReader struct{ err error }
+
+func (r vFailReader) Read(p []byte) (int, error) { return 0, r.err }
+
+// One buffer, one holder: after a stream has ended - cleanly, because its segment callback failed (a tampered segment),
+// because its source failed, or because its consumer went away - two later users of the pool that hold a buffer at the
+// same time never hold the same one. (A buffer returned to the pool twice would be handed to two streams at once and
+// carry one caller's bytes into the other's result.) Also for the header reader.
+//
+//verif:harness prop=C08 name=pool_one_holder_per_buffer unwind=40 race=off
+func VerifPoolOneHolder() {
+	if !zzverif.Symbolic() {
+		// the real sync.Pool keeps per-P caches: with one P what was put back is what the next Get returns
+		vOneP()
+	}
+	how := zzverif.Choose("ending", 5)
+	pr, pw := io.Pipe()
+	src := zzverif.Bytes("src", 1+zzverif.Choose("L", 3))
+	switch how {
+	case 0, 1: // clean end / callback failure on a forked segment
+		failAt := -1
+		if how == 1 {
+			failAt = zzverif.Choose("failing_segment", 2)
+		}
+		k := 0
+		processSegments(&vChunkReader{data: src}, pw, func(out io.Writer, data []byte, num uint32, last bool) error {
+			if k == failAt {
+				return vErrSeg
+			}
+			k++
+			return nil
+		}, 2)
+	case 2: // the source fails
+		processSegments(vFailReader{vErrSeg}, pw, func(out io.Writer, data []byte, num uint32, last bool) error { return nil }, 2)
+	case 3: // the consumer closed its end: writes fail
+		pr.Close()
+		processSegments(&vChunkReader{data: src}, pw, func(out io.Writer, data []byte, num uint32, last bool) error {
+			_, err := out.Write(data)
+			return err
+		}, 2)
+	case 4: // the header reader (accepted or refused header)
+		doc := zzverif.Bytes("doc", zzverif.Choose("doc_len", 4))
+		if zzverif.Bool("well_formed") {
+			doc, _, _ = vHeaderDoc("h")
+		}
+		var in io.Reader = &vChunkReader{data: doc}
+		_, _, _ = readHeader(&in)
+	}
+	b1 := BufPool.Get().(*[]byte)
+	b2 := BufPool.Get().(*[]byte)
+	zzverif.Assert(b1 != b2, "two_holders_never_share_a_buffer")
+	b3 := BufPool.Get().(*[]byte)
+	zzverif.Assert(b3 != b1 && b3 != b2, "two_holders_never_share_a_buffer")
+	zzverif.Cover("pool_one_holder_done")
+}
